@@ -573,11 +573,12 @@ def mutations_subst(img):
     return out
 
 
-def instr_candidates(word, nops):
+def instr_candidates(word, nops, reduced=False):
     """Boundary rewrites of one bytecode word: every operand byte/half/3-byte field set to its extremes,
-    opcode replaced by every opcode (and the first invalid one), debug bit set."""
+    opcode replaced by every opcode (reduced: every third one) and the first invalid one, debug bit set."""
     out = []
-    for op in list(range(nops + 1)) + [0x7F, 0x80 | (word & 0x7F)]:
+    ops = list(range(0, nops, 3)) + [nops - 1] if reduced else list(range(nops))
+    for op in ops + [nops, 0x7F, 0x80 | (word & 0x7F)]:
         out.append((word & 0xFFFFFF00) | op)
     for shift, width in ((8, 8), (16, 8), (24, 8), (8, 16), (16, 16), (8, 24)):
         mask = ((1 << width) - 1) << shift
@@ -592,8 +593,14 @@ def instr_candidates(word, nops):
     return res
 
 
-def mutations_struct(r, nops=80):
-    """Structure-aware single-field mutations located by the reader. Returns (label, off, dellen, repl)."""
+REDUCED_LEADS = [LB_REAL, LB_NIL, LB_FIBER, LB_INTEGER, LB_STRING, LB_ARRAY, LB_TUPLE, LB_TABLE_PROTO, LB_STRUCT,
+                 LB_FUNCTION, LB_REGISTRY, LB_ABSTRACT, LB_REFERENCE, LB_FUNCENV_REF, LB_FUNCDEF_REF, LB_UNSAFE_POINTER,
+                 LB_POINTER_BUFFER, LB_TABLE_WEAKKV_PROTO, LB_ARRAY_WEAK]
+
+
+def mutations_struct(r, nops=80, reduced=False):
+    """Structure-aware single-field mutations located by the reader. Returns (label, off, dellen, repl).
+    reduced (quick tier): every third opcode instead of every opcode, 19 of the 33 lead bytes."""
     out = []
     for f in r.fields:
         n = f.end - f.off
@@ -613,7 +620,7 @@ def mutations_struct(r, nops=80):
                 if pat != f.val:
                     out.append(("%s=nanbox:%s" % (f.name, pat.hex()), f.off, n, pat))
         elif f.kind == "u32" and f.name.startswith("bytecode"):
-            for w in instr_candidates(f.val, nops):
+            for w in instr_candidates(f.val, nops, reduced):
                 out.append(("%s=%08x" % (f.name, w), f.off, n, struct.pack("<I", w)))
         elif f.kind == "u32":
             for w in (0, 0xFFFFFFFF, f.val ^ 1, f.val ^ 0x80000000):
@@ -621,7 +628,7 @@ def mutations_struct(r, nops=80):
                     out.append(("%s=%08x" % (f.name, w), f.off, n, struct.pack("<I", w)))
         elif f.kind == "lead":
             # every lead byte of the protocol in place of this one
-            for b in ALL_LEAD_BYTES:
+            for b in (REDUCED_LEADS if reduced else ALL_LEAD_BYTES):
                 if b != f.val:
                     out.append(("%s->%s" % (f.name, LEAD_NAMES.get(b, b)), f.off, n, bytes([b])))
         elif f.kind == "byte":
